@@ -346,15 +346,21 @@ def run_strings(unit):
             _viol(out, "pipeline", type(e).__name__, repo_site(e), "string constant file failed to parse/render", exc_summary(e), files)
             return out.result()
         out.count("states", len(strs) + 4)
-        # optimization mode carries the very same constant lines
+        # optimization mode emits the same constants: every Go literal of the -O output must DENOTE the value the standard one denotes
+        # (the C -O header goes through the same compile-and-print probe as the standard header, below)
         try:
             go_o = "\n".join(render_strings(proto, "go", optimization_mode=True).values())
-            c_o = "\n".join(v for k2, v in render_strings(proto, "c", optimization_mode=True).items() if k2.endswith(".h"))
-            std_go = [l for l in "\n".join(outs["go"].values()).split("\n") if l.startswith("const ") and not l.startswith("const BYTES_LENGTH")]
-            std_c = [l for l in "\n".join(v for k2, v in outs["c"].items() if k2.endswith(".h")).split("\n") if re.match(r"#define [SBT]\d+ ", l)]
-            missing = [l for l in std_go if l not in go_o.split("\n")][:3] + [l for l in std_c if l not in c_o.split("\n")][:3]
-            if missing:
-                _viol(out, "emit-opt", "constant_lines_missing_in_optimization_mode", "renderer -O", "lines of the standard output absent from -O: %r" % missing, "", files)
+            cre = re.compile(r"^const (\w+)(?: \w+)? = (.*)$", re.M)
+            std_map = {n: l for n, l in cre.findall("\n".join(outs["go"].values())) if not n.startswith("BYTES_LENGTH")}
+            opt_map = dict(cre.findall(go_o))
+            bad = []
+            for n, lit in std_map.items():
+                if n not in opt_map:
+                    bad.append("%s is not emitted" % n)
+                elif opt_map[n] != lit and (go_unquote(opt_map[n]) is None or go_unquote(opt_map[n]) != go_unquote(lit)):
+                    bad.append("%s = %s, standard mode has %s" % (n, opt_map[n], lit))
+            if bad:
+                _viol(out, "emit-opt", "constants_differ_in_optimization_mode", "go renderer -O", "go -O: %r" % bad[:4], "", files)
         except Exception as e:
             _viol(out, "pipeline", type(e).__name__, repo_site(e), "-O rendering of the string constant file failed", exc_summary(e), files)
         pytext = "\n".join(outs["py"].values())
@@ -402,34 +408,45 @@ def run_strings(unit):
             c_probe.append("{ static const char s[] = S%d; d(\"S%d\", s, sizeof s - 1); }" % (k, k))
         c_probe.append("return 0;}")
         from ..cback import render_c_files
-        try:
-            render_c_files(path, d)
-            write(os.path.join(d, "probe.c"), "\n".join(c_probe) + "\n")
-            r = subprocess.run(["gcc", "-std=gnu11", "-w", "-I", d, "-I", bind.CLIB_DIR, os.path.join(d, "probe.c"), "-o", os.path.join(d, "probe")], capture_output=True, text=True)
+
+        def c_probe_run(c_mode):
+            """Compile the header of one mode with a program that prints every string macro's bytes."""
+            d_c = os.path.join(d, "c_std" if c_mode == "standard" else "c_opt")
+            os.makedirs(d_c, exist_ok=True)
+            texts_c = render_c_files(path, d_c, optimize=(c_mode == "-O"))
+            htext_c = "\n".join(v for k2, v in texts_c.items() if k2.endswith(".h"))
+            write(os.path.join(d_c, "probe.c"), "\n".join(c_probe) + "\n")
+            r = subprocess.run(["gcc", "-std=gnu11", "-w", "-I", d_c, "-I", bind.CLIB_DIR, os.path.join(d_c, "probe.c"), "-o", os.path.join(d_c, "probe")], capture_output=True, text=True)
             if r.returncode:
                 # find which constants break the header: compile each macro definition on its own
                 bad = []
                 for k, (src, val) in enumerate(strs):
-                    m1 = re.search(r"^#define S%d .*$" % k, htext, re.M)
+                    m1 = re.search(r"^#define S%d .*$" % k, htext_c, re.M)
                     one = "%s\nstatic const char s[] = S%d;\nint main(void){return (int)sizeof s;}\n" % (m1.group(0) if m1 else "", k)
-                    write(os.path.join(d, "one.c"), one)
-                    r1 = subprocess.run(["gcc", "-std=gnu11", "-w", "-fsyntax-only", os.path.join(d, "one.c")], capture_output=True, text=True)
+                    write(os.path.join(d_c, "one.c"), one)
+                    r1 = subprocess.run(["gcc", "-std=gnu11", "-w", "-fsyntax-only", os.path.join(d_c, "one.c")], capture_output=True, text=True)
                     if r1.returncode:
                         bad.append((k, val))
                 feats = ["str", "needs_escape"] if all(any(ch in v for ch in '"\\\n\r\t') for _, v in bad) and bad else ["str"]
-                _viol(out, "emit-c", "string_macro_does_not_compile", "c:format_str_value", "C header with string constants does not compile; offending values %r" % ([v for _, v in bad][:6],),
+                _viol(out, "emit-c", "string_macro_does_not_compile", "c:format_str_value", "C header (%s mode) with string constants does not compile; offending values %r" % (c_mode, [v for _, v in bad][:6]),
                       r.stderr[-1200:], files, feats)
-            else:
-                got = {}
-                for line in subprocess.run([os.path.join(d, "probe")], capture_output=True, text=True).stdout.splitlines():
-                    n, _, hx = line.partition(" ")
-                    got[n] = bytes.fromhex(hx).decode("utf-8", errors="replace")
-                for k, (src, val) in enumerate(strs):
-                    if got.get("S%d" % k) != val:
-                        feats = ["str"] + (["needs_escape"] if any(ch in val for ch in '"\\\n\r\t') else [])
-                        _viol(out, "emit-c", "wrong_string_literal", "c:format_str_value", "S%d value %r: C macro denotes %r" % (k, val, got.get("S%d" % k)), "", files, feats)
-        except Exception as e:
-            _viol(out, "pipeline", type(e).__name__, repo_site(e), "C rendering of string constants failed", exc_summary(e), files)
+                return
+            got = {}
+            for line in subprocess.run([os.path.join(d_c, "probe")], capture_output=True, text=True).stdout.splitlines():
+                n, _, hx = line.partition(" ")
+                got[n] = bytes.fromhex(hx).decode("utf-8", errors="replace")
+            for k, (src, val) in enumerate(strs):
+                if consts.get("S%d" % k) != val:
+                    continue  # reported above
+                if got.get("S%d" % k) != val:
+                    feats = ["str"] + (["needs_escape"] if any(ch in val for ch in '"\\\n\r\t') else [])
+                    _viol(out, "emit-c", "wrong_string_literal", "c:format_str_value", "S%d value %r: C macro (%s mode) denotes %r" % (k, val, c_mode, got.get("S%d" % k)), "", files, feats)
+
+        for c_mode in ("standard", "-O"):
+            try:
+                c_probe_run(c_mode)
+            except Exception as e:
+                _viol(out, "pipeline", type(e).__name__, repo_site(e), "C rendering (%s mode) of string constants failed" % c_mode, exc_summary(e), files)
         out.sample(dict(kind="strings", first=strs[:4], n=len(strs)))
     return out.result()
 
